@@ -53,6 +53,11 @@ Record facts := {
   stop_flush : bool;           (* cmdWrapper.Stop calls flushOutput, unconditionally, after Wait *)
   flush_streams : list stream; (* flushOutput: which of cmd.Stdout / cmd.Stderr are flushed, in order *)
   run_converts : bool;         (* Run returns ConvertCommandError(err) = proc.ConvertProcessError(err) *)
+  wait_delay_set : bool;       (* some statement of the package sets exec.Cmd.WaitDelay: os/exec then stops waiting for the
+                                  goroutines copying the output that long after the child has exited, closes the pipes
+                                  and Wait reports exec.ErrWaitDelay for a child which exited with status 0 *)
+  cancel_hook : bool;          (* setGroupAttrToCmd installs cmd.Cancel = kill the process group (recorded, not needed) *)
+  own_group : bool;            (* SysProcAttr{Setpgid: true} (recorded, not needed) *)
   (* executor.go, messaging.go *)
   exec_seq : list xop;         (* Execute *)
   end_ok_iff_nil : bool;       (* LogEnd: err == nil -> Log(success), else LogError(failure, err) *)
@@ -105,5 +110,8 @@ Definition rule_ok (r : rcond * ract) : bool :=
   | _ => true
   end.
 Definition exit_ok (F : facts) : bool := forallb rule_ok (rules F).
+
+(* os/exec waits for the copying goroutines without limit: every chunk write has happened when Wait returns. *)
+Definition io_ok (F : facts) : bool := negb (wait_delay_set F).
 
 Definition output_ok (F : facts) : bool := output_plain F && output_reads_always F.
